@@ -31,52 +31,81 @@ Definition ops_store (m : mode) (sz : Z) (o : operand) (v : expr) : res (list op
 
 Definition assign_flag (n : N) (e : expr) : operation := OAssign (flag_scalar n) e.
 
-Definition lift_alu (m : mode) (o : aluop) (sz : Z) (dst src : operand) : option (res (list operation)) :=
+Definition lift_alu_gen (o : aluop) (sz : Z) (lhsr rhsr : res expr) (store : expr -> res (list operation)) : option (res (list operation)) :=
   let t0 := temp_k 0 sz in
   let r := EScalar t0 in
   let logic (op : binop) (xor_same : bool) : res (list operation) :=
-      lhs <- opv m sz dst ;; rhs <- opv m sz src ;;
+      lhs <- lhsr ;; rhs <- rhsr ;;
       e <- (if xor_same && expr_eqb lhs rhs then Ok (expr_const 0 sz) else mk_bin op lhs rhs) ;;
       zf <- set_zf r ;; sf <- set_sf r ;;
-      st <- ops_store m sz dst r ;;
+      st <- store r ;;
       Ok ([OAssign t0 e; zf; sf; assign_flag X86Lift.n_CF (expr_const 0 1); assign_flag X86Lift.n_OF (expr_const 0 1)] ++ st) in
   match o with
   | AAdd => Some (
-      lhs <- opv m sz dst ;; rhs <- opv m sz src ;;
+      lhs <- lhsr ;; rhs <- rhsr ;;
       e <- mk_bin Add lhs rhs ;;
       zf <- set_zf r ;; sf <- set_sf r ;; of <- set_of r lhs rhs false ;;
       c <- mk_bin Cmpltu r lhs ;;
-      st <- ops_store m sz dst r ;;
+      st <- store r ;;
       Ok ([OAssign t0 e; zf; sf; of; assign_flag X86Lift.n_CF c] ++ st))
   | ASub => Some (
-      lhs <- opv m sz dst ;; rhs <- opv m sz src ;;
+      lhs <- lhsr ;; rhs <- rhsr ;;
       e <- mk_bin Sub lhs rhs ;;
       zf <- set_zf r ;; sf <- set_sf r ;; of <- set_of r lhs rhs true ;; cf <- set_cf r lhs ;;
-      st <- ops_store m sz dst r ;;
+      st <- store r ;;
       Ok ([OAssign t0 e; zf; sf; of; cf] ++ st))
   | ACmp => Some (
-      lhs <- opv m sz dst ;; rhs <- opv m sz src ;;
+      lhs <- lhsr ;; rhs <- rhsr ;;
       e <- mk_bin Sub lhs rhs ;;
       zf <- set_zf e ;; sf <- set_sf e ;; of <- set_of e lhs rhs true ;; cf <- set_cf e lhs ;;
       Ok [zf; sf; of; cf])
   | AAnd => Some (logic And false)
   | AOr => Some (logic Or false)
   | AXor => Some (logic Xor true)
+  | AAdc => Some (
+      lhs <- lhsr ;; rhs <- rhsr ;;
+      let t1 := temp_k 1 sz in let s1 := EScalar t1 in
+      e1 <- mk_bin Add lhs rhs ;;
+      zc <- mk_ext Zext sz (EScalar (flag_scalar X86Lift.n_CF)) ;;
+      e0 <- mk_bin Add s1 zc ;;
+      zf <- set_zf r ;; sf <- set_sf r ;; of <- set_of r lhs rhs false ;;
+      c1 <- mk_bin Cmpltu s1 lhs ;; c2 <- mk_bin Cmpltu r s1 ;; c <- mk_bin Or c1 c2 ;;
+      st <- store r ;;
+      Ok ([OAssign t1 e1; OAssign t0 e0; zf; sf; of; assign_flag X86Lift.n_CF c] ++ st))
+  | ASbb => Some (
+      lhs <- lhsr ;; rhs <- rhsr ;;
+      let t1 := temp_k 1 sz in let s1 := EScalar t1 in
+      e1 <- mk_bin Sub lhs rhs ;;
+      zc <- mk_ext Zext sz (EScalar (flag_scalar X86Lift.n_CF)) ;;
+      e0 <- mk_bin Sub s1 zc ;;
+      zf <- set_zf r ;; sf <- set_sf r ;; of <- set_of r lhs rhs true ;;
+      c1 <- mk_bin Cmpltu lhs rhs ;; c2 <- mk_bin Cmpltu s1 zc ;; c <- mk_bin Or c1 c2 ;;
+      st <- store r ;;
+      Ok ([OAssign t1 e1; OAssign t0 e0; zf; sf; of; assign_flag X86Lift.n_CF c] ++ st))
   | _ => None
   end.
 
-Definition lift_un (m : mode) (o : unop) (sz : Z) (dst : operand) : option (res (list operation)) :=
+Definition lift_alu_rhs (m : mode) (o : aluop) (sz : Z) (dst : operand) (rhsr : res expr) : option (res (list operation)) :=
+  lift_alu_gen o sz (opv m sz dst) rhsr (ops_store m sz dst).
+(* register / immediate source *)
+Definition lift_alu (m : mode) (o : aluop) (sz : Z) (dst src : operand) : option (res (list operation)) :=
+  lift_alu_rhs m o sz dst (opv m sz src).
+
+Definition lift_un_gen (o : unop) (dr : res expr) (store : expr -> res (list operation)) : option (res (list operation)) :=
   let incdec (op : binop) (sub : bool) : res (list operation) :=
-      d <- opv m sz dst ;;
+      d <- dr ;;
       e <- mk_bin op d (expr_const 1 (e_bits d)) ;;
       zf <- set_zf e ;; sf <- set_sf e ;; of <- set_of e d (expr_const 1 (e_bits d)) sub ;;
-      st <- ops_store m sz dst e ;;
+      st <- store e ;;
       Ok ([zf; sf; of] ++ st) in
   match o with
   | UInc => Some (incdec Add false)
   | UDec => Some (incdec Sub true)
   | _ => None
   end.
+
+Definition lift_un (m : mode) (o : unop) (sz : Z) (dst : operand) : option (res (list operation)) :=
+  lift_un_gen o (opv m sz dst) (ops_store m sz dst).
 
 Definition lift_mov (m : mode) (sz : Z) (dst src : operand) : res (list operation) :=
   s <- opv m sz src ;; ops_store m sz dst s.
@@ -147,6 +176,84 @@ Definition lift_lea (m : mode) (sz : Z) (dst : Z) (src : operand) : option (res 
   | None => None
   end.
 
+(* ---- memory operands: Mode::operand_load emits  temp_0x<addr> := load(address)  and yields the temporary;
+        Mode::operand_store emits  store(address, value) ---- *)
+Definition temp_main (bits : Z) : scalar := mks 52%N bits None.
+Definition is_mem (o : operand) : bool := match o with OMem _ _ _ _ => true | _ => false end.
+
+(* mov r, [m] *)
+Definition lift_mov_load (m : mode) (sz : Z) (dst src : operand) : option (res (list operation)) :=
+  match addr_expr m src with
+  | Some ra => Some (a <- ra ;; st <- ops_store m sz dst (EScalar (temp_main sz)) ;; Ok (OLoad (temp_main sz) a :: st))
+  | None => None
+  end.
+(* mov [m], r | imm *)
+Definition lift_mov_store (m : mode) (sz : Z) (dst src : operand) : option (res (list operation)) :=
+  match addr_expr m dst with
+  | Some ra => Some (v <- opv m sz src ;; a <- ra ;; Ok [OStore a v])
+  | None => None
+  end.
+(* add/sub/cmp/and/or/xor r, [m] *)
+Definition lift_alu_load (m : mode) (o : aluop) (sz : Z) (dst src : operand) : option (res (list operation)) :=
+  match addr_expr m src, lift_alu_rhs m o sz dst (Ok (EScalar (temp_main sz))) with
+  | Some ra, Some body => Some (a <- ra ;; ops <- body ;; Ok (OLoad (temp_main sz) a :: ops))
+  | _, _ => None
+  end.
+(* add/sub/cmp/and/or/xor [m], r | imm : load, compute, (store) *)
+Definition lift_alu_rmw (m : mode) (o : aluop) (sz : Z) (dst src : operand) : option (res (list operation)) :=
+  match addr_expr m dst with
+  | Some ra =>
+      match lift_alu_gen o sz (Ok (EScalar (temp_main sz))) (opv m sz src) (fun v => a <- ra ;; Ok [OStore a v]) with
+      | Some body => Some (a <- ra ;; ops <- body ;; Ok (OLoad (temp_main sz) a :: ops))
+      | None => None
+      end
+  | None => None
+  end.
+(* inc / dec [m] *)
+Definition lift_un_rmw (m : mode) (o : unop) (sz : Z) (dst : operand) : option (res (list operation)) :=
+  match addr_expr m dst with
+  | Some ra =>
+      match lift_un_gen o (Ok (EScalar (temp_main sz))) (fun v => a <- ra ;; Ok [OStore a v]) with
+      | Some body => Some (a <- ra ;; ops <- body ;; Ok (OLoad (temp_main sz) a :: ops))
+      | None => None
+      end
+  | None => None
+  end.
+(* ---- stack: Mode::push_value (store at sp - n, then sp := sp - n; n = bytes of the value) and Mode::pop_value
+        (temp_0x<addr> := load(sp); sp := sp + n) ---- *)
+Definition sp_scalar (m : mode) : scalar := mks (full_name m 4) (wordsz m) None.
+Definition lift_push (m : mode) (sz : Z) (src : operand) : option (res (list operation)) :=
+  let sp := EScalar (sp_scalar m) in
+  let body (pre : list operation) (v : expr) : res (list operation) :=
+      nsp <- mk_bin Sub sp (expr_const (e_bits v / 8) (wordsz m)) ;;
+      Ok (pre ++ [OStore nsp v; OAssign (sp_scalar m) nsp]) in
+  match src with
+  | OMem _ _ _ _ => match addr_expr m src with
+                    | Some ra => Some (a <- ra ;; body [OLoad (temp_main sz) a] (EScalar (temp_main sz)))
+                    | None => None end
+  | _ => Some (v <- opv m sz src ;; body [] v)
+  end.
+Definition lift_pop (m : mode) (sz : Z) (dst : operand) : option (res (list operation)) :=
+  let sp := EScalar (sp_scalar m) in
+  let t := temp_main sz in
+  match dst with
+  | OMem _ _ _ _ => match addr_expr m dst with
+                    | Some ra => Some (nsp <- mk_bin Add sp (expr_const (sz / 8) (wordsz m)) ;; a <- ra ;;
+                                       Ok [OLoad t sp; OAssign (sp_scalar m) nsp; OStore a (EScalar t)])
+                    | None => None end
+  | OImm _ => None
+  | _ => Some (nsp <- mk_bin Add sp (expr_const (sz / 8) (wordsz m)) ;; st <- ops_store m sz dst (EScalar t) ;;
+               Ok (OLoad t sp :: OAssign (sp_scalar m) nsp :: st))
+  end.
+
+(* movzx / movsx r, [m] *)
+Definition lift_movx_load (m : mode) (sg : bool) (dsz ssz : Z) (dst : Z) (src : operand) : option (res (list operation)) :=
+  match addr_expr m src with
+  | Some ra => Some (a <- ra ;; v <- mk_ext (if sg then Sext else Zext) dsz (EScalar (temp_main ssz)) ;;
+                     st <- ops_store m dsz (OReg dst) v ;; Ok (OLoad (temp_main ssz) a :: st))
+  | None => None
+  end.
+
 Definition regimm (o : operand) : bool := match o with OReg _ | ORegH _ | OImm _ => true | _ => false end.
 Definition isreg (o : operand) : bool := match o with OReg _ | ORegH _ => true | _ => false end.
 
@@ -158,11 +265,19 @@ Definition one_block (addr : Z) (ops : list operation) : cfg :=
 Definition mirror_instr (m : mode) (addr : Z) (i : instr) : option (res cfg) :=
   let wrap (r : res (list operation)) : res cfg := ops <- r ;; Ok (one_block addr ops) in
   match i with
-  | IMov sz dst src => if isreg dst && regimm src then Some (wrap (lift_mov m sz dst src)) else None
-  | IAlu o sz dst src => if isreg dst && regimm src then option_map wrap (lift_alu m o sz dst src) else None
-  | IUn o sz dst => if isreg dst then option_map wrap (lift_un m o sz dst) else None
+  | IMov sz dst src => if isreg dst && regimm src then Some (wrap (lift_mov m sz dst src))
+                       else if isreg dst && is_mem src then option_map wrap (lift_mov_load m sz dst src)
+                       else if is_mem dst && regimm src then option_map wrap (lift_mov_store m sz dst src) else None
+  | IAlu o sz dst src => if isreg dst && regimm src then option_map wrap (lift_alu m o sz dst src)
+                         else if isreg dst && is_mem src then option_map wrap (lift_alu_load m o sz dst src)
+                         else if is_mem dst && regimm src then option_map wrap (lift_alu_rmw m o sz dst src) else None
+  | IUn o sz dst => if isreg dst then option_map wrap (lift_un m o sz dst)
+                    else if is_mem dst then option_map wrap (lift_un_rmw m o sz dst) else None
   | ISetcc c dst => if isreg dst then Some (wrap (lift_setcc m c dst)) else None
   | ILea sz dst src => option_map wrap (lift_lea m sz dst src)
-  | IMovx sg dsz ssz dst src => if isreg src then Some (wrap (lift_movx m sg dsz ssz dst src)) else None
+  | IPush sz src => option_map wrap (lift_push m sz src)
+  | IPop sz dst => option_map wrap (lift_pop m sz dst)
+  | IMovx sg dsz ssz dst src => if isreg src then Some (wrap (lift_movx m sg dsz ssz dst src))
+                                else if is_mem src then option_map wrap (lift_movx_load m sg dsz ssz dst src) else None
   | _ => None
   end.
